@@ -368,6 +368,45 @@ fn gen_sig(rng: &mut Rng, allow_tail: bool) -> Sig {
     sig.gc()
 }
 
+/// Signatures that put the register files under pressure: 6-14 parameters drawn from `i64`, `f64`
+/// and the two-eightbyte structs `{i64,i64}`, `{f64,f64}`, `{i64,f64}`, `{f64,i64}` (and the
+/// one-eightbyte `{i64}`, `{f64}`), biased per signature towards one class, so that one class runs
+/// out while the other still has room, mixed structs arrive at exactly that point and later
+/// structs must find the registers the rejected one did not take (seeded change C19_1).
+fn gen_sig_pressure(rng: &mut Rng) -> Sig {
+    let structs = vec![
+        vec![Fld::S(Sc::I64), Fld::S(Sc::I64)],
+        vec![Fld::S(Sc::F64), Fld::S(Sc::F64)],
+        vec![Fld::S(Sc::I64), Fld::S(Sc::F64)],
+        vec![Fld::S(Sc::F64), Fld::S(Sc::I64)],
+        vec![Fld::S(Sc::I64)],
+        vec![Fld::S(Sc::F64)],
+        vec![Fld::S(Sc::F32), Fld::S(Sc::F32), Fld::S(Sc::I32)],
+    ];
+    let mut sig = Sig { structs, params: vec![], ret: PTy::Void };
+    let n = 6 + rng.below(9) as usize;
+    let bias = rng.below(3); // 0: integer-heavy, 1: sse-heavy, 2: even
+    for _ in 0..n {
+        let int_side: [PTy; 3] = [PTy::S(Sc::I64), PTy::St(0), PTy::St(4)];
+        let sse_side: [PTy; 3] = [PTy::S(Sc::F64), PTy::St(1), PTy::St(5)];
+        let mixed: [PTy; 3] = [PTy::St(2), PTy::St(3), PTy::St(6)];
+        let r = rng.below(10);
+        let p = match (bias, r) {
+            (_, 0..=2) => rng.pick(&mixed).clone(),
+            (0, 3..=7) | (2, 3..=5) => rng.pick(&int_side).clone(),
+            _ => rng.pick(&sse_side).clone(),
+        };
+        sig.params.push(p);
+    }
+    sig.ret = match rng.below(4) {
+        0 => PTy::Void,
+        1 => PTy::St(2),
+        2 => PTy::St(0),
+        _ => PTy::S(Sc::I64),
+    };
+    sig.gc()
+}
+
 /// exhaustive small domain: every struct of one or two scalar fields and every array-of-scalar
 /// struct, as return value and as the argument after a prefix of `gi` i64 and `gf` f64 arguments
 fn small_domain(quick: bool) -> Vec<Sig> {
@@ -1468,6 +1507,10 @@ pub fn run(tier: &str, seed: u64, widen: bool) -> Report {
     let n_random = if widen { 200_000 } else if thorough { 60_000 } else { 4_000 };
     for _ in 0..n_random {
         sigs.push(gen_sig(&mut rng, true));
+    }
+    // register pressure (one class exhausted while the other has room)
+    for _ in 0..n_random / 2 {
+        sigs.push(gen_sig_pressure(&mut rng));
     }
     for chunk in sigs.chunks(5000) {
         stream_abi(&mut rep, chunk);
